@@ -144,6 +144,9 @@ class Parameter:
             return self.upper - d % width
 
     def submit_accept_prob(self, p: float):
+        # (a plain float: with a single-precision posterior p is a numpy.float32 and the running
+        # sums would be kept in that type - but restored as doubles by load())
+        p = float(p)
         self.num += 1
         self.avg += p
         self.var += p * (1 - p)
